@@ -666,7 +666,16 @@ func (c *SpecCtx) call(e *ast.CallExpr) *Val {
 			if v, ok := x.lastArgs[fmt.Sprintf("%s:%d", name, i)]; ok {
 				return v
 			}
-			c.fail("no recorded call to %s", name)
+			// no such call on this path: any value (specifications guard with ncalls)
+			return scalar(x.freshConst(c.st, "noarg", SInt), nil)
+		case "lastret":
+			// lastret("callee", i): scalar result i of the last call to callee on this path
+			name := c.strArg(e.Args[0])
+			i := c.eval(e.Args[1]).T.lit.Int64()
+			if t, ok := c.st.ghost[fmt.Sprintf("lastret:%s:%d", name, i)]; ok {
+				return scalar(t, nil)
+			}
+			return scalar(x.freshConst(c.st, "noret", SInt), nil)
 		case "typeis":
 			// typeis(ifaceValue, "pkg.Type")
 			v := c.eval(e.Args[0])
